@@ -53,7 +53,7 @@ enum Inner<T> {
     Real(::tokio::task::JoinHandle<T>),
     Sim(::tokio::sync::oneshot::Receiver<T>),
     Blocking {
-        function: Option<Box<dyn FnOnce() -> T + Send>>,
+        function: std::sync::Mutex<Option<Box<dyn FnOnce() -> T + Send>>>,
         yielded: bool,
     },
     Done,
@@ -119,7 +119,11 @@ impl<T> Future for JoinHandle<T> {
                         }
                     }
                 }
-                let function = function.take().expect("blocking closure polled twice");
+                let function = function
+                    .lock()
+                    .unwrap()
+                    .take()
+                    .expect("blocking closure polled twice");
                 let value = function();
                 this.inner = Inner::Done;
                 Poll::Ready(Ok(value))
@@ -178,7 +182,7 @@ where
     match super::runtime() {
         Some(_) => JoinHandle {
             inner: Inner::Blocking {
-                function: Some(Box::new(function)),
+                function: std::sync::Mutex::new(Some(Box::new(function))),
                 yielded: false,
             },
         },
